@@ -44,6 +44,9 @@ func NewSparseConstFloat64Vector(indices []int, values []float64, n int) SparseC
   if len(indices) != len(values) {
     panic("invalid number of indices")
   }
+  // sort and filter copies, the arguments are left untouched
+  indices = append([]int{}, indices...)
+  values = append([]float64{}, values...)
   sort.Sort(sortIntConstFloat64{indices, values})
   r := nilSparseConstFloat64Vector(n)
   r.indices = indices[0:0]
